@@ -2,7 +2,7 @@ import AtreeProofs.Batch.MapContent
 import AtreeProofs.Map.TreeDefs
 import AtreeProofs.Map.EffectsAcct
 import AtreeProofs.MapIds
-import Mathlib.Data.List.Perm.Subperm
+import Batteries.Data.List.Perm
 /-
   C17, bulk build of maps — slab identifiers, part 1 (audit a1 F9, FX9H): the identifier
   bookkeeping `FreshIds` and the LEVEL loop of `NewMapFromBatchData` (`MBatch.levels`:
